@@ -185,7 +185,7 @@ PROPERTIES.update({
         "engine": "it",
         "technique": "exhaustive exploration of every prefix of every iteration on the real iterator (chain walk), cross-checked by stateright on a sub-table",
         "rule": "a state is (case, Debug rendering of the real FindIter/FindRevIter incl. pos and prefilter counters, reference index)",
-        "explanation": "find_iter / rfind_iter (top-level and Finder::find_iter, auto and no prefilter): every prefix of the iteration for all needles x all haystacks over {a,b} (self-overlapping needles in repetitive haystacks are all members), padded cores that reach the vector searchers, long structured needles x their factor haystacks, and the PF family whose early part drives the adaptive prefilter inert before later matches (the number of inert states is read off the real object). Each yielded offset is compared with the greedy non-overlapping reference; size_hint must bracket the remaining count in every state; None must be sticky; the empty needle must yield 0..=len exactly once.",
+        "explanation": "find_iter / rfind_iter (top-level and Finder::find_iter, auto and no prefilter): every prefix of the iteration for all needles x all haystacks over {a,b} (self-overlapping needles in repetitive haystacks are all members), padded cores that reach the vector searchers, long structured needles x their factor haystacks, the TILE family (needles of 3..65 (2..80) bytes in every period class x every sequence of <= 3 (4) tiles out of needle / one period / near-miss prefix / last period / 1 or 16 filler bytes: back-to-back and self-overlapping occurrences at every distance from the haystack's ends), and the PF family whose early part drives the adaptive prefilter inert before later matches (the number of inert states is read off the real object). Each yielded offset is compared with the greedy non-overlapping reference; size_hint must bracket the remaining count in every state; None must be sticky; the empty needle must yield 0..=len exactly once.",
         "assumptions": ASSUME_SUB[:1] + ["PF haystacks are built from the pair Pair::new(needle) reports, which is the pair the AVX2 prefilter uses"],
         "jobs": [it("subs", RESULT, "it/subs")],
     },
